@@ -1,6 +1,7 @@
 package vegeta_test
 
 import (
+	"bufio"
 	"bytes"
 	"encoding/json"
 	"fmt"
@@ -46,6 +47,19 @@ func c07AllowedJSON() (map[string]bool, error) {
 	return allowed, nil
 }
 
+// oneByteWriter accepts a single byte per Write call (short writes are legal: io.Writer returns how much it took,
+// with io.ErrShortWrite left to the caller - the standard library's buffered writers loop)
+type oneByteWriter struct{ w io.Writer }
+
+func (o oneByteWriter) Write(p []byte) (int, error) {
+	for i := range p {
+		if _, err := o.w.Write(p[i : i+1]); err != nil {
+			return i, err
+		}
+	}
+	return len(p), nil
+}
+
 func normHeaders(r vegeta.Result) vegeta.Result {
 	if len(r.Headers) == 0 {
 		r.Headers = nil
@@ -84,6 +98,41 @@ func runC07(c c07Case) error {
 			return fmt.Errorf("%s, encoded from recycled buffers: decoding stopped after %d of %d records with %v", codec.Name, len(got2), len(c.Results), derr)
 		} else if d := vgen.DiffResults(c.Results, got2); d != "" {
 			return fmt.Errorf("%s round trip of results encoded from recycled buffers (one Result, header map and body buffer overwritten between Encode calls): %s", codec.Name, d)
+		}
+		// 1c. whatever writer the caller hands over - buffered writers of any size, flushed by the caller when it is
+		// done; a writer that takes one byte at a time - ends up holding the same stream
+		for _, size := range []int{1, 16, 512, 1024, 4095, 4096, 8192} {
+			var sink bytes.Buffer
+			bw := bufio.NewWriterSize(&sink, size)
+			enc := codec.Enc(bw)
+			for i := range c.Results {
+				r := c.Results[i]
+				if err := enc.Encode(&r); err != nil {
+					return fmt.Errorf("%s encode record %d into a bufio.Writer of %d bytes: %v", codec.Name, i, size, err)
+				}
+			}
+			if err := bw.Flush(); err != nil {
+				return err
+			}
+			// (compared record by record: gob writes header maps in the order the map yields them)
+			got3, derr := vgen.DecodeAll(codec.Dec(bytes.NewReader(sink.Bytes())), len(c.Results)+1)
+			if d := vgen.DiffResults(c.Results, got3); derr != io.EOF || d != "" || sink.Len() != len(data) {
+				return fmt.Errorf("%s: %d records encoded into a bufio.Writer of %d bytes, which the caller flushed at the end: the output has %d bytes and decodes to %d records then %v (%s); encoded into a bytes.Buffer the stream has %d bytes", codec.Name, len(c.Results), size, sink.Len(), len(got3), derr, d, len(data))
+			}
+		}
+		{
+			var sink bytes.Buffer
+			enc := codec.Enc(oneByteWriter{&sink})
+			for i := range c.Results {
+				r := c.Results[i]
+				if err := enc.Encode(&r); err != nil {
+					return fmt.Errorf("%s encode record %d into a writer that takes one byte per call: %v", codec.Name, i, err)
+				}
+			}
+			got3, derr := vgen.DecodeAll(codec.Dec(bytes.NewReader(sink.Bytes())), len(c.Results)+1)
+			if d := vgen.DiffResults(c.Results, got3); derr != io.EOF || d != "" || sink.Len() != len(data) {
+				return fmt.Errorf("%s: encoded into a writer that takes one byte per call the stream has %d bytes and decodes to %d records then %v (%s); into a bytes.Buffer %d bytes", codec.Name, sink.Len(), len(got3), derr, d, len(data))
+			}
 		}
 		// 2. independent reader of the documented layout
 		var ind []vegeta.Result
